@@ -129,6 +129,9 @@ def pairs(tier, seed=0, engine_multigraph=False):
         out.append(("order4", ("grid", 2, 1, 1, 0)))
         out.append(("chstt_B", ("grid", 2, 1, 1, 1)))
         out.append(("chstt_B", ("graph", "pair")))
+        # rate constants that are zero in ONE environment only, on a graph where a node of that environment comes AFTER an active one
+        out.append(("ABC_bi", ("graph", "triangle")))
+        out.append(("dimer_source", ("graph", "triangle")))
     else:
         spaces = THOROUGH_GRIDS + QUICK_GRAPHS
         for netname in NETS_ALL:
